@@ -302,7 +302,7 @@ func main() {
 			facts["layout."+fn] = st.layout(fd)
 		}
 	}
-	for _, fn := range []string{"fileStore.flushPages", "fileStore.update", "fileStore.save", "fileStore.fetch", "fileStore.append", "fileStore.close", "fileStore.open", "fileStore.startFlusher",
+	for _, fn := range []string{"fileStore.flushPages", "fileStore.update", "fileStore.save", "fileStore.fetch", "fileStore.append", "fileStore.close", "fileStore.closeLocked", "fileStore.flushPagesLocked", "fileStore.stopFlusher", "RelationService.Close", "fileStore.open", "fileStore.startFlusher",
 		"newFileStore", "wal.flush", "wal.read", "WALBatch.replay", "InitStorage", "LRUCache.set", "LRUCache.get",
 		"RelationService.CreateTable", "RelationService.createTable", "RelationService.Insert", "RelationService.Update", "RelationService.MarkDeleted",
 		"RelationService.updatePageTable", "RelationService.StartTxn", "RelationService.EndTxn", "OpenRelation", "CreateDB",
@@ -346,6 +346,8 @@ func main() {
 	facts["storage.callers.save"] = callersOf("save")
 	facts["storage.callers.flushPages"] = callersOf("flushPages")
 	facts["storage.callers.startFlusher"] = callersOf("startFlusher")
+	facts["storage.callers.flushPagesLocked"] = callersOf("flushPagesLocked")
+	facts["storage.callers.closeLocked"] = callersOf("closeLocked")
 	for _, fn := range []string{"fileStore.fetch", "fileStore.update", "btreeNode.encodeLeaf", "btreeNode.decodeLeaf", "btreeNode.decodeInternal", "btreeNode.encodeInternal",
 		"btreeNode.split", "btreeNode.updateCell", "btreeNode.insertLeafCell", "BTree.findCell", "BTree.scanRight", "BTree.scanLeft", "WALBatch.replay", "wal.read", "wal.flush", "LRUCache.set", "LRUCache.get"} {
 		if fd, ok := sf[fn]; ok {
@@ -529,13 +531,33 @@ func lockFacts(facts map[string]interface{}) {
 	facts["lock.createTableLocked"] = hasPrefixSeq(inner, "call:rs.fs.lockShared", "defer:rs.fs.unlockShared") &&
 		indexOf(inner, "call:rs.fs.flushPages") < 0 && indexOf(ct, "call:rs.createTable") >= 0 &&
 		indexOf(ct, "call:rs.createTable") < indexOf(ct, "call:rs.fs.flushPages") && indexOf(ct, "call:rs.createPage") < 0
-	facts["lock.flushExclusive"] = hasPrefixSeq(strs(facts["skeleton.storage.fileStore.flushPages"]), "call:f.lockExclusive", "defer:f.unlockExclusive")
+	// flushPages = lock; flushPagesLocked; the locked body is reached only from there and from the two
+	// close paths, which take the exclusive lock themselves before they call closeLocked
+	fp := strs(facts["skeleton.storage.fileStore.flushPages"])
+	cl := strs(facts["skeleton.storage.fileStore.close"])
+	rc := strs(facts["skeleton.storage.RelationService.Close"])
+	lockedBefore := func(sk []string, call string) bool {
+		i, j := indexOf(sk, "call:"+call), -1
+		for k, x := range sk {
+			if strings.HasSuffix(x, "lockExclusive") && strings.HasPrefix(x, "call:") && !strings.Contains(x, "unlock") {
+				j = k
+				break
+			}
+		}
+		return i >= 0 && j >= 0 && j < i
+	}
+	facts["lock.flushExclusive"] = hasPrefixSeq(fp, "call:f.lockExclusive", "defer:f.unlockExclusive") && indexOf(fp, "call:f.flushPagesLocked") >= 0 &&
+		subset(strs(facts["storage.callers.flushPagesLocked"]), "fileStore.flushPages", "fileStore.closeLocked") &&
+		subset(strs(facts["storage.callers.closeLocked"]), "fileStore.close", "RelationService.Close") &&
+		lockedBefore(cl, "f.closeLocked") && lockedBefore(rc, "rs.fs.closeLocked") &&
+		// the log is closed only after the lock is held (a running statement appends first)
+		lockedBefore(rc, "rs.wal.close")
 	st := strs(facts["skeleton.storage.RelationService.StartTxn"])
 	en := strs(facts["skeleton.storage.RelationService.EndTxn"])
 	facts["lock.txnIsSharedLock"] = len(st) == 1 && st[0] == "call:rs.fs.lockShared" && len(en) == 1 && en[0] == "call:rs.fs.unlockShared"
 	facts["lock.pageWritesOnlyInFlush"] = subset(strs(facts["storage.file_writers"]), "fileStore.save", "fileStore.update") &&
-		subset(strs(facts["storage.callers.update"]), "fileStore.flushPages") &&
-		subset(strs(facts["storage.callers.save"]), "CreateDB", "fileStore.flushPages")
+		subset(strs(facts["storage.callers.update"]), "fileStore.flushPagesLocked") &&
+		subset(strs(facts["storage.callers.save"]), "CreateDB", "fileStore.flushPagesLocked")
 	logInside := true
 	for _, fn := range []string{"EvaluateInsert", "EvaluateUpdate", "EvaluateDelete"} {
 		sk := strs(facts["skeleton.engine."+fn])
